@@ -168,6 +168,11 @@ class MemPrims:
             if r is not None:
                 return r
         short = name.rsplit("::", 1)[1] if "::" in name else name
+        seq = path.tags.get("area_seq")
+        if seq is not None:
+            r = self.list_mode(I, path, frame, t, name, short, args, seq)
+            if r is not None:
+                return r
         if short == "find" and "Iterator" in (t["f"].get("def") or name) and len(args) == 2:
             return self.find(I, path, frame, t, args)
         if short in ("position", "rposition") and "Iterator" in (t["f"].get("def") or name) and len(args) == 2 and \
@@ -198,6 +203,8 @@ class MemPrims:
                 rg = I.read_loc(path, rg[1]) if len(rg) > 1 and isinstance(rg[1], tuple) else rg
             if rg[0] == "agg" and len(rg[3]) == 2 and not (A.is_int(rg[3][0]) and A.is_int(rg[3][1])):
                 # `for i in lo..hi` with a symbolic bound: one generic index, or the end
+                if path.tags.get("area_seq") is not None:
+                    path.tags["list_unsupported"] = "index loop"
                 p2 = path.copy()
                 path.events.append(("iter_next", "some", ("range", rg[3][1])))
                 p2.events.append(("iter_next", "none", ("range", rg[3][1])))
@@ -234,6 +241,118 @@ class MemPrims:
                 val = ("agg", "tuple", None, (A.W(("enum_idx",), 64), elem)) if "Enumerate" in g else elem
                 return [(A.SOME(val), path), (A.NONE, p2)]
         return None
+
+    # ------------------------------------------------------------------ list mode
+    # path.tags["area_seq"] = [ordering, ...]: the area list is exactly that sequence of areas, element k standing in
+    # ordering seq[k] to the request. Every iterator instance walks the sequence in order (reversed under rev()), the
+    # loops are unrolled exactly, and the comparison oracle answers for the element last handed out. Forms of walking
+    # the list that this mode does not follow mark the path ("list_unsupported") and fall back to the generic model.
+    LIST_PLAIN = ("iter", "iter_mut", "into_iter", "enumerate", "rev", "next", "find", "position", "rposition",
+                  "index", "index_mut", "deref", "deref_mut", "as_slice", "as_mut_slice", "push", "as_ref", "borrow",
+                  "unwrap", "expect", "is_some", "is_none", "ok_or", "ok_or_else", "clone", "fmt", "into", "from",
+                  "branch", "from_residual", "as_deref", "as_mut", "map", "unwrap_or_else", "to_owned")
+
+    @staticmethod
+    def inst_of(it):
+        """(innermost instance id, reversed?) of an iterator value built by list mode"""
+        rev = False
+        inst = None
+        while isinstance(it, tuple) and it and it[0] == "iter":
+            if len(it) > 2:
+                if it[2] == "rev":
+                    rev = not rev
+                elif isinstance(it[2], tuple) and it[2][0] == "inst":
+                    inst = it[2]
+            it = it[1]
+        return inst, rev
+
+    def list_mode(self, I, path, frame, t, name, short, args, seq):
+        g = " ".join(t["f"].get("gargs", []))
+        if "MemoryArea" not in g:
+            return None
+        isiter = "Iterator" in (t["f"].get("def") or name)
+        if short in ("iter", "iter_mut", "into_iter") and args:
+            a0 = args[0]
+            if a0[0] == "iter":
+                return [(a0, path)]
+            n = path.tags.get("iter_n", 0)
+            path.tags["iter_n"] = n + 1
+            return [(("iter", self_norm(I, path, a0), ("inst", n)), path)]
+        if short in ("enumerate", "rev") and args and args[0][0] == "iter":
+            return [(("iter", args[0], short), path)]
+        if short == "next" and isiter and args:
+            it = I._deref_all(path, args[0])
+            inst, rev = self.inst_of(it)
+            if inst is None:
+                path.tags["list_unsupported"] = "next on %s" % (A.show(it)[:60],)
+                return None
+            pos = path.tags.get(("ipos", inst), 0)
+            path.tags[("concrete_loop", frame.fid)] = True
+            if pos >= len(seq):
+                path.events.append(("iter_next", "none"))
+                return [(A.NONE, path)]
+            k = len(seq) - 1 - pos if rev else pos
+            path.tags[("ipos", inst)] = pos + 1
+            path.tags["order"] = seq[k]
+            path.events.append(("iter_next", "some", k))
+            val = area_ref("IterMut" in g)
+            if "Enumerate" in g:
+                val = ("agg", "tuple", None, (A.W(("enum_idx",), 64), val))
+            return [(A.SOME(val), path)]
+        if short in ("find", "position", "rposition") and isiter and len(args) == 2:
+            return self.find_list(I, path, frame, t, args, seq, short)
+        if short in ("index", "index_mut") and "ops::Index" in name:
+            return None
+        if short not in self.LIST_PLAIN:
+            path.tags["list_unsupported"] = short
+        return None
+
+    def find_list(self, I, path, frame, t, args, seq, want):
+        it = I._deref_all(path, args[0])
+        inst, rev = self.inst_of(it)
+        clos = args[1]
+        cb = self.F.bodies.get(clos[1][8:]) if clos[0] == "agg" and clos[1].startswith("closure:") else None
+        if inst is None or cb is None:
+            path.tags["list_unsupported"] = want
+            return None
+        if want == "rposition":
+            rev = not rev
+        mut = "IterMut" in " ".join(t["f"].get("gargs", []))
+        outs = []
+        pending = [(path, path.tags.get(("ipos", inst), 0))]
+        while pending:
+            p, pos = pending.pop()
+            if pos >= len(seq):
+                p.tags[("ipos", inst)] = pos
+                p.events.append(("find", "none"))
+                outs.append((A.NONE, p))
+                continue
+            k = len(seq) - 1 - pos if rev else pos
+            p.tags["order"] = seq[k]
+            p.events.append(("iter_next", "some", k))
+            envl = ("L", ("find-env", frame.fid, t["sp"], pos), 0)
+            p.store[envl] = clos
+            itl = ("L", ("find-item", frame.fid, t["sp"], pos), 0)
+            p.store[itl] = area_ref(mut)
+            item = ("ref", (itl, ()), False) if want == "find" else area_ref(mut)
+            for o in I.call_body(cb, [("ref", (envl, ()), True), item], p, frame, frame.depth + 1):
+                if o.kind != "return":
+                    outs.append(("panic", o.cls, o.msg or "find predicate", o.path))
+                    continue
+                v = I.decide(o.path, o.value)
+                if v is None:
+                    p0 = o.path.copy()
+                    I.assume_cond(p0, o.value, 0)
+                    pending.append((p0, pos + 1))
+                    I.assume_cond(o.path, o.value, 1)
+                    v = 1
+                if v == 0:
+                    pending.append((o.path, pos + 1))
+                    continue
+                o.path.tags[("ipos", inst)] = pos + 1
+                o.path.events.append(("find", "some"))
+                outs.append((A.SOME(area_ref(mut) if want == "find" else A.W(("enum_idx",), 64)), o.path))
+        return outs
 
     def find(self, I, path, frame, t, args):
         """Iterator::find(pred): None, or Some(area) with pred(area) assumed true."""
